@@ -66,6 +66,9 @@ let get1 c tag = match get c tag with [x] -> x | _ -> failwith ("arity " ^ tag)
 
 (* ---------- verdict bookkeeping ---------- *)
 let n_cases = ref 0
+let n_seen = ref 0
+let shard = ref 0
+let n_shards = ref 1
 let n_checks = ref 0
 let n_mismatch = ref 0
 let n_specfail = ref 0
@@ -106,14 +109,352 @@ let handle_varint c =
   spec_ok c "roundtrip" (impl_dec = Printf.sprintf "%d %d" v l && l >= 1 && l <= 5)
     (Printf.sprintf "v=%d enc=%s dec=%s" v impl_enc impl_dec)
 
-let dispatch c =
+
+(* ---------- shared helpers for file-based cases ---------- *)
+let fnv_init = 0xcbf29ce484222325L
+let fnv_feed (h : int64 ref) (b : int) =
+  h := Int64.mul (Int64.logxor !h (Int64.of_int b)) 0x100000001b3L
+let entries_hash (es : (n list * n list) list) : string =
+  let h = ref fnv_init in
+  let feed_len l = let l = List.length l in
+    fnv_feed h (l land 255); fnv_feed h ((l lsr 8) land 255); fnv_feed h ((l lsr 16) land 255); fnv_feed h ((l lsr 24) land 255) in
+  List.iter (fun (k, v) ->
+    feed_len k; List.iter (fun b -> fnv_feed h (int_of_n b)) k;
+    feed_len v; List.iter (fun b -> fnv_feed h (int_of_n b)) v) es;
+  Printf.sprintf "%d %016Lx" (List.length es) !h
+
+let err_name (e : err) = match e with
+  | EIo k -> "io" ^ string_of_n k | EMerge -> "merge" | EInvalidCodec -> "codec"
+  | EInvalidVersion -> "version" | EFuel -> "fuel"
+
+(* codec tables: the compressed form of each block as the codec crate produced it *)
+type ztab = { z_fwd : (string, n list) Hashtbl.t; z_bwd : (string, n list) Hashtbl.t; mutable z_miss : int }
+let ztab_of c : ztab =
+  let t = { z_fwd = Hashtbl.create 64; z_bwd = Hashtbl.create 64; z_miss = 0 } in
+  List.iter (fun toks -> match toks with
+    | [u; z] -> Hashtbl.replace t.z_fwd u (bytes_of_hex z); Hashtbl.replace t.z_bwd z (bytes_of_hex u)
+    | _ -> ()) (get_all c "z");
+  t
+let compress_of (t : ztab) : n -> n -> n list -> n list outcome = fun codec _level b ->
+  if codec = N0 then Done b
+  else match Hashtbl.find_opt t.z_fwd (hex_of_bytes b) with
+    | Some z -> Done z
+    | None -> t.z_miss <- t.z_miss + 1; Fail (EIo (n_of_int 5))
+let decompress_of (t : ztab) : n -> n list -> n list outcome = fun codec b ->
+  if codec = N0 then Done b
+  else match Hashtbl.find_opt t.z_bwd (hex_of_bytes b) with
+    | Some u -> Done u
+    | None -> Fail (EIo (n_of_int 6))
+
+let parse_cfg c : wcfg =
+  match get c "cfg" with
+  | [codec; level; bs; interval; levels] ->
+    { wc_codec = n_of_string codec; wc_level = n_of_string level; wc_block_size = n_of_string bs;
+      wc_interval = n_of_string interval; wc_levels = n_of_string levels }
+  | _ -> failwith "cfg"
+let parse_entries c : (n list * n list) list =
+  List.map (fun toks -> match toks with [k; v] -> (bytes_of_hex k, bytes_of_hex v) | _ -> failwith "e") (get_all c "e")
+
+(* Memoisation of the (pure) extracted loader per offset: the ordinal argument is ignored by
+   load_block, so caching by offset does not change any result. *)
+let memo_load (f : n -> n -> block outcome) : n -> n -> block outcome =
+  let tbl : (int, block outcome) Hashtbl.t = Hashtbl.create 64 in
+  fun ord off ->
+    let k = int_of_n off in
+    match Hashtbl.find_opt tbl k with
+    | Some r -> r
+    | None -> let r = f ord off in Hashtbl.replace tbl k r; r
+
+(* full scan of a file through the model cursor *)
+let model_scan (dec : n -> n list -> n list outcome) (file : n list) (m : meta) (backward : bool) : string =
+  let load = memo_load (load_block dec file m.m_codec) in
+  let step st o = cstep load m.m_root m.m_levels st o in
+  let rec go st acc guard =
+    if guard = 0 then "runaway -" else
+    match step st (if backward then OPrev else ONext) with
+    | Done (st', Some e) -> go st' (e :: acc) (guard - 1)
+    | Done (_, None) -> entries_hash (List.rev acc)
+    | Panic -> "panic -"
+    | Fail e -> "err " ^ err_name e in
+  go cs_fresh [] 3000000
+
+(* ---------- writer cases: C01 / C09 / C15 / C18 ---------- *)
+let handle_file c =
+  let prop = get1 c "prop" in
+  let cfg = parse_cfg c in
+  let es = parse_entries c in
+  let zt = ztab_of c in
+  let impl = get c "impl" in
+  let model = w_run (compress_of zt) cfg es in
+  let model_kind = match model with
+    | WFile (_, _, _) -> "file" | WPanicInsert i -> "panic_insert " ^ string_of_n i
+    | WPanicFinish -> "panic_finish -" | WFail e -> "err " ^ err_name e in
+  let impl_kind = match impl with "file" :: _ -> "file" | l -> String.concat " " l in
+  check_eq c "outcome" impl_kind model_kind;
+  let sorted_input = sorted_strictb (List.map fst es) in
+  let spec_hash = entries_hash es in
+  (match impl with
+   | ["file"; fhex] ->
+     let f = bytes_of_hex fhex in
+     (match model with
+      | WFile (mf, _, _) -> check_eq c "bytes" fhex (hex_of_bytes mf)
+      | _ -> ());
+     let dec = decompress_of zt in
+     (* model reader on the implementation's file *)
+     (match open_meta f with
+      | Done m ->
+        let ver = match m.m_version with FormatV1 -> 0 | FormatV2 -> 1 in
+        check_eq c "meta" (String.concat " " (get c "meta"))
+          (Printf.sprintf "%d %s %s" ver (string_of_n m.m_codec) (string_of_n m.m_count));
+        check_eq c "fwd" (String.concat " " (get c "fwd")) (model_scan dec f m false);
+        check_eq c "bwd" (String.concat " " (get c "bwd")) (model_scan dec f m true)
+      | Panic -> check_eq c "meta" (String.concat " " (get c "meta")) "panic - -"
+      | Fail e -> check_eq c "meta" (String.concat " " (get c "meta")) ("err " ^ err_name e ^ " -"));
+     (* property predicates on the implementation's observations *)
+     if prop = "C01" || prop = "C09" then begin
+       if sorted_input then begin
+         spec_ok c "C01.meta" (get c "meta" = ["1"; string_of_n cfg.wc_codec; string_of_int (List.length es)])
+           ("meta=" ^ String.concat " " (get c "meta"));
+         spec_ok c "C01.fwd" (String.concat " " (get c "fwd") = spec_hash) ("fwd=" ^ String.concat " " (get c "fwd") ^ " expected " ^ spec_hash);
+         spec_ok c "C01.bwd" (String.concat " " (get c "bwd") = entries_hash (List.rev es)) ("bwd=" ^ String.concat " " (get c "bwd"))
+       end
+     end;
+     let decoded = decode_file dec f in
+     if prop = "C09" && sorted_input then begin
+       (match decoded with
+        | Done ((m, des), nodes) ->
+          spec_ok c "C09.decode" (entries_hash des = spec_hash) "independent decoder recovers other entries";
+          spec_ok c "C09.trailer" (m.m_version = FormatV2 && m.m_codec = cfg.wc_codec && int_of_n m.m_count = List.length es
+                                   && m.m_levels = cfg.wc_levels) "trailer fields";
+          (* footer offset tables: first 0, one per interval *)
+          List.iter (fun ((_, off), b) ->
+            match block_entries b with
+            | Done bes -> spec_ok c "C09.offsets" (offsets_ok cfg.wc_interval b bes) ("offset table of block at " ^ string_of_n off)
+            | _ -> spec_ok c "C09.offsets" false "block does not decode") nodes;
+          (* every index entry maps the last key of its child to the child's offset: implied by
+             decode (children reached through the offsets) + last-key check *)
+          ()
+        | Panic -> spec_ok c "C09.decode" false "independent decoder panics"
+        | Fail e -> spec_ok c "C09.decode" false ("independent decoder fails: " ^ err_name e));
+       (match get_all c "oldread" with
+        | [r] -> spec_ok c "C09.oldread" (String.concat " " r = spec_hash) ("grenad 0.4.7 reads " ^ String.concat " " r ^ " expected " ^ spec_hash)
+        | _ -> ());
+       (match get_all c "oldfile" with
+        | [[ofhex]] ->
+          let oldf = bytes_of_hex ofhex in
+          (* the 0.4.7 writer's file: current reader (impl) and model reader must recover the entries *)
+          (match get_all c "oldfwd" with
+           | [r] -> spec_ok c "C09.oldfwd" (String.concat " " r = spec_hash) ("current reader on 0.4.7 file: " ^ String.concat " " r)
+           | _ -> ());
+          let zt_old = zt in
+          (match open_meta oldf with
+           | Done m when m.m_codec = N0 ->
+             check_eq c "oldfwd.model" spec_hash (model_scan (decompress_of zt_old) oldf m false)
+           | _ -> ())
+        | _ -> ())
+     end;
+     if prop = "C15" || prop = "C18" then begin
+       (match decoded with
+        | Done ((m, _), nodes) ->
+          let b_eff = cfg.wc_block_size in
+          let levels = int_of_n cfg.wc_levels in
+          (* last-emitted block of each level = the one with the largest offset *)
+          let maxoff = Hashtbl.create 8 in
+          List.iter (fun ((lvl, off), _) ->
+            let l = int_of_n lvl and o = int_of_n off in
+            match Hashtbl.find_opt maxoff l with
+            | Some x when x >= o -> () | _ -> Hashtbl.replace maxoff l o) nodes;
+          List.iter (fun ((lvl, off), b) ->
+            let l = int_of_n lvl and o = int_of_n off in
+            match block_entries b with
+            | Done bes ->
+              if prop = "C18" then
+                spec_ok c "C18.sorted" (block_sorted bes) (Printf.sprintf "block at %d (level %d) has unsorted keys" o l);
+              if prop = "C15" && (l = levels + 1 || l >= 2) && bes <> [] then begin
+                let sz = int_of_n (block_size_of b) and szb = int_of_n (size_without_last b bes) in
+                let b_i = int_of_n b_eff in
+                spec_ok c "C15.before" (szb < b_i) (Printf.sprintf "block at %d (level %d): size without last entry %d >= B=%d" o l szb b_i);
+                if Hashtbl.find maxoff l <> o then
+                  spec_ok c "C15.reached" (sz >= b_i) (Printf.sprintf "block at %d (level %d) emitted below B: size %d < %d" o l sz b_i)
+              end
+            | _ -> spec_ok c "blocks.decode" false (Printf.sprintf "block at %d does not decode" o)) nodes
+        | _ -> if sorted_input then spec_ok c "blocks.walk" false "file does not decode")
+     end
+   | "panic_insert" :: _ | "panic_finish" :: _ ->
+     (* C18 allows the panic only for unsorted input; for sorted input a panic violates C01 *)
+     if sorted_input then spec_ok c (prop ^ ".nopanic") false ("writer panicked on sorted input: " ^ String.concat " " impl)
+   | _ ->
+     spec_ok c (prop ^ ".noerr") false ("writer returned an error on a plain Vec sink: " ^ String.concat " " impl));
+  if zt.z_miss > 0 then check_eq c "ztable" "0" (string_of_int zt.z_miss)
+
+
+(* ---------- reader cases: histories (C02 C03 C16 C10) ---------- *)
+let nat8 = nat_of_int 8
+let nat4 = nat_of_int 4
+let block_hash (b : block) : string =
+  let h = ref fnv_init in
+  List.iter (fun x -> fnv_feed h (int_of_n x)) b.blk_payload;
+  List.iter (fun o -> List.iter (fun x -> fnv_feed h (int_of_n x)) (be_bytes nat8 o)) b.blk_offsets;
+  List.iter (fun x -> fnv_feed h (int_of_n x)) (be_bytes nat4 (len b.blk_offsets));
+  Printf.sprintf "%016Lx" !h
+let bcur_fp (c : bcur) : string =
+  (match c.bc_off with None -> "-" | Some o -> string_of_n o) ^ ":" ^ block_hash c.bc_blk
+let state_fp (st : cstate) : string =
+  let idx = match st.cs_inner with
+    | None -> "-" | Some [] -> "0"
+    | Some l -> String.concat "," (List.map (fun (_, c) -> bcur_fp c) l) in
+  let data = match st.cs_data with None -> "-" | Some c -> bcur_fp c in
+  "I=" ^ idx ^ ";D=" ^ data
+
+let res_string (r : (n list * n list) option) = match r with
+  | Some (k, v) -> "S " ^ hex_of_bytes k ^ " " ^ hex_of_bytes v | None -> "N"
+
+let parse_op (name : string) (q : string) : op = match name with
+  | "first" -> OFirst | "last" -> OLast | "next" -> ONext | "prev" -> OPrev
+  | "ge" -> OGe (bytes_of_hex q) | "le" -> OLe (bytes_of_hex q) | "eq" -> OEq (bytes_of_hex q)
+  | "reset" -> OReset | "current" -> OCurrent | _ -> failwith ("op " ^ name)
+
+let handle_hist c =
+  let prop = get1 c "prop" in
+  let cfg = parse_cfg c in
+  let es = parse_entries c in
+  let zt = ztab_of c in
+  let file = bytes_of_hex (get1 c "file") in
+  let dec = decompress_of zt in
+  match open_meta file with
+  | Panic -> check_eq c "meta" (String.concat " " (get c "meta")) "panic - -"
+  | Fail e -> check_eq c "meta" (String.concat " " (get c "meta")) ("err " ^ err_name e ^ " -")
+  | Done m ->
+    let ver = match m.m_version with FormatV1 -> 0 | FormatV2 -> 1 in
+    check_eq c "meta" (String.concat " " (get c "meta"))
+      (Printf.sprintf "%d %s %s" ver (string_of_n m.m_codec) (string_of_n m.m_count));
+    if prop = "C10" then begin
+      let magic_v1 = (List.rev file |> fun l -> match l with a :: b :: c' :: d :: _ -> [d; c'; b; a] | _ -> []) in
+      let is_v1 = hex_of_bytes magic_v1 = "4c4d3276" in
+      spec_ok c "C10.open" (get c "meta" = [(if is_v1 then "0" else "1"); string_of_n cfg.wc_codec; string_of_int (List.length es)])
+        ("open reports " ^ String.concat " " (get c "meta"))
+    end;
+    let load = memo_load (load_block dec file m.m_codec) in
+    let step st o = cstep load m.m_root m.m_levels st o in
+    let states : (string, cstate * apos) Hashtbl.t = Hashtbl.create 4 in
+    Hashtbl.replace states "0" (cs_fresh, Fresh);
+    let levels = int_of_n m.m_levels in
+    let stop = ref false in
+    let opno = ref 0 in
+    List.iter (fun toks ->
+      incr opno;
+      if not !stop then
+      match toks with
+      | cid :: "clone" :: newid :: "=" :: _ ->
+        Hashtbl.replace states newid (Hashtbl.find states cid)
+      | cid :: name :: q :: "=" :: impl_res ->
+        let (st, pos) = Hashtbl.find states cid in
+        let o = parse_op name q in
+        let field = Printf.sprintf "op%d(%s)" !opno name in
+        let (impl_r, impl_loads, impl_fp) = match impl_res with
+          | ["S"; k; v; l; fp] -> ("S " ^ k ^ " " ^ v, int_of_string l, fp)
+          | ["N"; l; fp] -> ("N", int_of_string l, fp)
+          | ["E"; cls; l] -> ("E " ^ cls, int_of_string l, "-")
+          | ["P"] -> ("P", 0, "-")
+          | _ -> failwith "bad op result" in
+        (* specification *)
+        let (pos', spec_r) = aspec es pos o in
+        (match spec_r with
+         | Some r ->
+           spec_ok c (prop ^ "." ^ field) (impl_r = res_string r)
+             (Printf.sprintf "impl=%s spec=%s (history position %d)" impl_r (res_string r) !opno)
+         | None -> ());
+        if impl_r = "P" then spec_ok c (prop ^ ".nopanic") false (field ^ " panicked");
+        (* I/O bound of C16 *)
+        if name <> "reset" && name <> "current" then
+          spec_ok c ("C16." ^ field) (impl_loads <= 2 * (levels + 2))
+            (Printf.sprintf "%d block loads > 2*(%d+2)" impl_loads levels);
+        (* model *)
+        (match step st o with
+         | Done (st', r) ->
+           check_eq c field impl_r (res_string r);
+           let mloads = int_of_n st'.cs_loads - int_of_n st.cs_loads in
+           incr n_checks;
+           if impl_loads > mloads then begin
+             incr n_mismatch;
+             if !n_mismatch <= max_report then
+               Printf.printf "MISMATCH %s/%s %s.loads impl=%d model<=%d\n" c.kind c.id field impl_loads mloads end;
+           if impl_fp <> "-" then check_eq c (field ^ ".state") impl_fp (state_fp st');
+           Hashtbl.replace states cid (st', pos')
+         | Panic -> check_eq c field impl_r "P"; stop := true
+         | Fail e -> check_eq c field impl_r ("E " ^ err_name e); stop := true);
+        if String.length impl_r > 0 && (impl_r.[0] = 'E' || impl_r.[0] = 'P') then stop := true
+      | _ -> failwith "bad op line") (get_all c "o")
+
+(* ---------- iterators (C04 C05) ---------- *)
+let iter_result (l : (n list * n list) list) : string =
+  let first = match l with (k, _) :: _ -> hex_of_bytes k | [] -> "-" in
+  let last = match List.rev l with (k, _) :: _ -> hex_of_bytes k | [] -> "-" in
+  entries_hash l ^ " " ^ first ^ " " ^ last
+
+let parse_bound kind v : bound = match kind with
+  | "u" -> Unbounded | "i" -> Included (bytes_of_hex v) | "x" -> Excluded (bytes_of_hex v) | _ -> failwith "bound"
+
+let handle_iter c =
+  let prop = get1 c "prop" in
+  let es = parse_entries c in
+  let zt = ztab_of c in
+  let file = bytes_of_hex (get1 c "file") in
+  let dec = decompress_of zt in
+  match open_meta file with
+  | Done m ->
+    let load = memo_load (load_block dec file m.m_codec) in
+    let step st o = cstep load m.m_root m.m_levels st o in
+    let fuel = nat_of_int (List.length es + 2) in
+    let run next = match collect next fuel iter_new with
+      | Done l -> iter_result l | Panic -> "panic - - -" | Fail e -> "err " ^ err_name e ^ " - -" in
+    let qn = ref 0 in
+    List.iter (fun toks ->
+      incr qn;
+      let field = Printf.sprintf "q%d" !qn in
+      match toks with
+      | "range" :: lk :: lv :: hk :: hv :: dir :: "=" :: impl ->
+        let lo = parse_bound lk lv and hi = parse_bound hk hv in
+        let impl_s = String.concat " " impl in
+        let spec_l = range_spec es lo hi in
+        let spec_s = iter_result (if dir = "rev" then List.rev spec_l else spec_l) in
+        spec_ok c (prop ^ "." ^ field) (impl_s = spec_s) (Printf.sprintf "range %s %s %s %s %s: impl=%s spec=%s" lk lv hk hv dir impl_s spec_s);
+        check_eq c field impl_s (run (if dir = "rev" then rev_range_next step lo hi else range_next step lo hi))
+      | "prefix" :: p :: dir :: "=" :: impl ->
+        let p = bytes_of_hex p in
+        let impl_s = String.concat " " impl in
+        let spec_l = prefix_spec es p in
+        let spec_s = iter_result (if dir = "rev" then List.rev spec_l else spec_l) in
+        spec_ok c (prop ^ "." ^ field) (impl_s = spec_s) (Printf.sprintf "prefix %s %s: impl=%s spec=%s" (hex_of_bytes p) dir impl_s spec_s);
+        check_eq c field impl_s (run (if dir = "rev" then rev_prefix_next step p else prefix_next step p))
+      | _ -> failwith "bad q line") (get_all c "q")
+  | _ -> spec_ok c (prop ^ ".open") false "file does not open in the model"
+
+let timing = try Sys.getenv "DRIVER_TIMING" = "1" with Not_found -> false
+let rec dispatch c =
+  if timing then begin
+    let t0 = Sys.time () in
+    dispatch0 c;
+    let dt = Sys.time () -. t0 in
+    if dt > 0.5 then Printf.printf "TIME %s/%s %.2fs\n%!" c.kind c.id dt
+  end else dispatch0 c
+and dispatch0 c =
+  incr n_seen;
+  if (!n_seen mod !n_shards) <> !shard then () else begin
   incr n_cases;
+  dispatch1 c end
+and dispatch1 c =
   match c.kind with
   | "varint" -> handle_varint c
+  | "file" -> handle_file c
+  | "hist" -> handle_hist c
+  | "iter" -> handle_iter c
   | k -> failwith ("unknown case kind " ^ k)
 
 let () =
   let path = Sys.argv.(1) in
+  if Array.length Sys.argv >= 4 then begin
+    shard := int_of_string Sys.argv.(2); n_shards := int_of_string Sys.argv.(3) end;
   read_cases path dispatch;
   Printf.printf "SUMMARY cases=%d checks=%d mismatches=%d specfails=%d\n"
     !n_cases !n_checks !n_mismatch !n_specfail
